@@ -7,7 +7,9 @@ use std::sync::{Arc, Mutex};
 use verif_harness::util::{catch, quiet_panics, CaseStream, Results, Rng};
 use verif_harness::workspace;
 
-const PRELUDE: &str = "pub type T { T(a: Int, b: String) }\npub type Box(x) { Box(inner: x) }\nfn id(x) { x }\nfn apply(x: a, f: fn(a) -> b) -> b { f(x) }\nfn map(l: List(a), f: fn(a) -> b) -> List(b) { case l { [] -> [] [h, ..t] -> [f(h), ..map(t, f)] } }\nfn add(a: Int, b: Int) -> Int { a + b }\nfn mk_ok(x: a, e: b) -> Result(a, b) { Ok(x) }\nfn mk_err(x: a, e: b) -> Result(a, b) { Error(e) }\npub type M { M(Int, key: String, value: Float) }\nfn wrap(item) { item }\nfn item() { wrap(1) }\n";
+const PRELUDE: &str = "pub type T { T(a: Int, b: String) }\npub type Box(x) { Box(inner: x) }\nfn id(x) { x }\nfn apply(x: a, f: fn(a) -> b) -> b { f(x) }\nfn map(l: List(a), f: fn(a) -> b) -> List(b) { case l { [] -> [] [h, ..t] -> [f(h), ..map(t, f)] } }\nfn add(a: Int, b: Int) -> Int { a + b }\nfn mk_ok(x: a, e: b) -> Result(a, b) { Ok(x) }\nfn mk_err(x: a, e: b) -> Result(a, b) { Error(e) }\npub type M { M(Int, key: String, value: Float) }\nfn wrap(item) { item }\nfn item() { wrap(1) }\npub type Fx(r) { Fx(run: fn(Int) -> r) }\n";
+/// the library module `pal`, imported by the generated module and used qualified
+const PAL: &str = "pub type Color { Red Green }\npub type Shade { Shade(c: Color, n: Int) }\npub fn mix(a: Color, b: Color) -> Color { case a { Red -> b Green -> a } }\npub fn keep(x: a, y: b) -> a { x }\n";
 
 fn first_code_block(markup: &str) -> String {
     let mut it = markup.split("```");
@@ -125,7 +127,7 @@ fn main() {
                 }
             }
             let prelude_first = case["prelude_first"].as_bool().unwrap_or(rng.chance(1, 2));
-            let mut text = String::new();
+            let mut text = String::from("import pal\n");
             if prelude_first { text.push_str(PRELUDE); }
             let mut probes: Vec<(usize, String, String, String)> = vec![]; // offset, name, role (binder / spread_binder / fun), expected type
             let mut prev = String::new();
@@ -152,7 +154,7 @@ fn main() {
                 }
                 text.push('\n');
             }
-            let prelude_at = if prelude_first { 0 } else { text.len() };
+            let prelude_at = if prelude_first { "import pal\n".len() } else { text.len() };
             if !prelude_first { text.push_str(PRELUDE); }
             for (name, sig) in prelude_sigs.iter() {
                 let off = PRELUDE.find(&format!("fn {name}(")).expect("prelude function") + 3;
@@ -163,7 +165,7 @@ fn main() {
             let mut nsig = 0u64;
             let mut sig_bad: Option<Value> = None;
             let r = catch(|| {
-                let ws = workspace::single_package(&[("m1", &text)]);
+                let ws = workspace::single_package(&[("m1", &text), ("pal", PAL)]);
                 let a = ws.host.snapshot();
                 let diags = a.diagnostics(FileId(0)).unwrap();
                 if !diags.is_empty() {
@@ -180,10 +182,14 @@ fn main() {
                         let next = gtoks.get(k + 1).map(|t| t.1.as_str()).unwrap_or("");
                         let is_def = r == "binder" || r == "fun";
                         let is_label = next == ":" && (prev == "(" || prev == ",") && !is_def;
-                        let is_field = prev == ".";
+                        let prev2 = if k > 1 { gtoks[k - 2].1.as_str() } else { "" };
+                        let qualified = prev == "." && prev2 == "pal";       // pal.Red, pal.mix
+                        let is_field = prev == "." && !qualified;
                         let exp: Option<&str> = if is_def || is_label || is_field { None }
+                            else if s == "pal" && next == "." { Some("Module") }
+                            else if qualified { if first.is_ascii_uppercase() { Some("Constructor") } else { Some("Function") } }
                             else if ["id", "apply", "map", "add", "mk_ok", "mk_err", "wrap"].contains(&s.as_str()) || (s.len() > 1 && s.starts_with('g') && s[1..].chars().all(|c| c.is_ascii_digit())) { Some("Function") }
-                            else if s == "T" || s == "Box" || s == "M" { Some("Constructor") }
+                            else if s == "T" || s == "Box" || s == "M" || s == "Fx" { Some("Constructor") }
                             else if let Some(ty) = binder_ty.get(s.as_str()) { if ty.starts_with("fn(") { Some("Function") } else { None } }
                             else { None };
                         let got = hl.iter().find(|h| usize::from(h.range.start()) == *off && usize::from(h.range.end()) == off + s.len()).map(|h| format!("{:?}", h.tag));
